@@ -11,11 +11,16 @@ macro "len_omega" : tactic =>
   `(tactic| ((try simp only [List.length_cons, List.length_drop, List.length_take, List.length_append,
       List.length_nil]); omega))
 
+/-- does `pat` occur as a contiguous block in a skeleton? -/
+def hasSub : List String → List String → Bool
+  | [], pat => pat.isEmpty
+  | a :: l, pat => pat.isPrefixOf (a :: l) || hasSub l pat
+
 /-- what a successful `readTGData` has seen in the file -/
 theorem readTGData_ok {fsz : Nat} {r : Bytes} {id : Int} {tg r3 : Bytes}
     (h : readTGData md5 fsz r = .ok id tg r3) :
     ∃ lenb ck, r = lenb ++ (tg ++ (ck ++ r3)) ∧ lenb.length = 8 ∧ ck.length = 16 ∧
-      leDecodeInt lenb = tg.length ∧ md5 (lenb ++ tg) = ck ∧ 7 ≤ tg.length := by
+      leDecodeInt lenb = tg.length ∧ md5 (lenb ++ tg) = ck ∧ 8 ≤ tg.length := by
   unfold readTGData at h
   split at h; · cases h
   simp only at h
@@ -23,21 +28,20 @@ theorem readTGData_ok {fsz : Nat} {r : Bytes} {id : Int} {tg r3 : Bytes}
   split at h; · cases h
   split at h; · cases h
   split at h; · cases h
-  split at h; · cases h
   split at h
-  · rename_i h1 h2 h3 h4 h5 h6 h7
+  · rename_i h1 h2 h3 h4 h5 h6
     injection h with hid htg hr3
     refine ⟨r.take tgLenBytes, ((r.drop tgLenBytes).drop (leDecodeInt (r.take tgLenBytes)).toNat).take checkSumBytes, ?_, ?_, ?_, ?_, ?_, ?_⟩
     · subst htg hr3
       simp only [List.take_append_drop]
     · simp only [tgLenBytes] at h1 ⊢; len_omega
-    · simp only [checkSumBytes] at h6 ⊢; rw [List.length_take]; omega
+    · simp only [checkSumBytes] at h5 ⊢; rw [List.length_take]; omega
     · subst htg
-      simp only [List.length_take]
+      simp only [List.length_take, tgIDBytes] at h2 ⊢
       omega
-    · subst htg; exact h7
+    · subst htg; exact h6
     · subst htg
-      simp only [List.length_take, tgIDBytes] at h5 ⊢
+      simp only [List.length_take, tgIDBytes] at h2 h4 ⊢
       omega
   · cases h
 
@@ -46,24 +50,28 @@ theorem readTGData_ok_rest {fsz : Nat} {r : Bytes} {id : Int} {tg r3 : Bytes}
   obtain ⟨lenb, ck, hr, _⟩ := readTGData_ok md5 h
   rw [hr]; len_omega
 
-theorem readTGData_bad_rest {fsz : Nat} {r r' : Bytes}
-    (h : readTGData md5 fsz r = .bad r') : r'.length ≤ r.length := by
+/-- an unreadable record: the position afterwards is a proper suffix (at least the 8 length bytes are consumed) -/
+theorem readTGData_bad_suffix {fsz : Nat} {r r' : Bytes}
+    (h : readTGData md5 fsz r = .bad r') : ∃ pre, r = pre ++ r' := by
   unfold readTGData at h
   split at h; · cases h
   simp only at h
+  split at h; · cases h
   split at h
-  · injection h with h; subst h; len_omega
-  split at h; · cases h
-  split at h; · cases h
+  · injection h with h; subst h
+    exact ⟨r.take tgLenBytes, by simp⟩
   split at h; · cases h
   split at h; · cases h
   split at h
   · cases h
-  · injection h with h; subst h; len_omega
+  · injection h with h; subst h
+    exact ⟨r.take tgLenBytes ++ ((r.drop tgLenBytes).take (leDecodeInt (r.take tgLenBytes)).toNat ++
+      ((r.drop tgLenBytes).drop (leDecodeInt (r.take tgLenBytes)).toNat).take checkSumBytes), by
+        simp only [List.append_assoc, List.take_append_drop]⟩
 
-/-- every iteration of the scan loop that continues has consumed at least one byte -/
-theorem step_cont_lt {fsz : Nat} {r r' : Bytes} {st st' : St}
-    (h : step md5 fsz r st = .cont r' st') : r'.length < r.length := by
+/-- the position after a continuing iteration is a suffix of the position before, and shorter -/
+theorem step_cont_suffix {fsz : Nat} {r r' : Bytes} {st st' : St}
+    (h : step md5 fsz r st = .cont r' st') : ∃ pre, r = pre ++ r' ∧ 1 ≤ pre.length := by
   unfold step at h
   cases r with
   | nil => cases h
@@ -72,31 +80,32 @@ theorem step_cont_lt {fsz : Nat} {r r' : Bytes} {st st' : St}
     split at h
     · split at h
       · cases h
-      · cases h
-      · rename_i hb
+      · rename_i r'' hb
+        injection h with h1 h2; subst h1
+        obtain ⟨pre, hp⟩ := readTGData_bad_suffix md5 hb
+        exact ⟨b :: pre, by rw [hp]; simp, by simp⟩
+      · rename_i id' tg' r3 hok
         split at h
         · cases h
         · injection h with h1 h2; subst h1
-          have := readTGData_bad_rest md5 hb
-          len_omega
-      · rename_i hb
-        split at h
-        · cases h
-        · injection h with h1 h2; subst h1
-          have := readTGData_ok_rest md5 hb
-          len_omega
+          obtain ⟨lenb, ck, hr, _⟩ := readTGData_ok md5 hok
+          exact ⟨b :: (lenb ++ (tg' ++ ck)), by rw [hr]; simp, by simp⟩
     · split at h
       · split at h
         · cases h
         · try simp only at h
-          split at h <;> (injection h with h1 h2; subst h1; len_omega)
+          split at h <;> (injection h with h1 h2; subst h1; exact ⟨b :: r1.take txnInfoBytes, by simp, by simp⟩)
       · split at h
         · split at h
           · cases h
-          · split at h
-            · cases h
-            · injection h with h1 h2; subst h1; len_omega
-        · injection h with h1 h2; subst h1; len_omega
+          · injection h with h1 h2; subst h1; exact ⟨b :: r1.take walStatusLenBytes, by simp, by simp⟩
+        · injection h with h1 h2; subst h1; exact ⟨[b], by simp, by simp⟩
+
+/-- every iteration of the scan loop that continues has consumed at least one byte -/
+theorem step_cont_lt {fsz : Nat} {r r' : Bytes} {st st' : St}
+    (h : step md5 fsz r st = .cont r' st') : r'.length < r.length := by
+  obtain ⟨pre, hr, hp⟩ := step_cont_suffix md5 h
+  rw [hr]; len_omega
 
 /-- with fuel above the number of remaining bytes the loop never runs out of fuel -/
 theorem scanLoop_fuel (fsz : Nat) : ∀ (n : Nat) (r : Bytes) (st : St), r.length < n →
@@ -112,8 +121,6 @@ theorem scanLoop_fuel (fsz : Nat) : ∀ (n : Nat) (r : Bytes) (st : St), r.lengt
     · rename_i r' st' hs
       have := step_cont_lt md5 hs
       exact ih r' st' (by omega)
-    · simp
-    · simp
     · simp
 
 /-! ### safety invariant of the first pass -/
@@ -133,13 +140,6 @@ theorem mem_put {m : TGMap} {k : Int} {v : Option Bytes} {a : Int × Option Byte
 
 theorem mem_dropUpTo {m : TGMap} {k : Int} {a : Int × Option Bytes}
     (h : a ∈ m.dropUpTo k) : a ∈ m := (List.mem_filter.mp h).1
-
-theorem mem_failedRead {st : St} {id : Int} {tg : Bytes}
-    (h : (id, some tg) ∈ st.failedRead.tgData) : (id, some tg) ∈ st.tgData := by
-  unfold St.failedRead at h
-  rcases mem_put h with h | h
-  · cases h
-  · exact h
 
 /-- the state after one loop iteration holds only groups that were there before, or the
 checksum-valid record that starts at the current position -/
@@ -161,16 +161,12 @@ theorem step_tgData {fsz : Nat} {r : Bytes} {st st' : St} {id : Int} {tg : Bytes
     split at h
     · rename_i hb0
       split at h
-      · rcases h with ⟨r', h⟩ | h <;> cases h
       · rcases h with ⟨r', h⟩ | h
         · cases h
-        · injection h with h; subst h; exact Or.inl (mem_failedRead hm)
-      · split at h
-        · rcases h with ⟨r', h⟩ | h <;> cases h
-        · rcases h with ⟨r', h⟩ | h
-          · injection h with h1 h2; subst h2
-            exact Or.inl (mem_failedRead hm)
-          · cases h
+        · injection h with h; subst h; exact Or.inl hm
+      · rcases h with ⟨r', h⟩ | h
+        · injection h with h1 h2; subst h2; exact Or.inl hm
+        · cases h
       · rename_i id' tg' r3 hok
         split at h
         · rcases h with ⟨r', h⟩ | h <;> cases h
@@ -202,68 +198,15 @@ theorem step_tgData {fsz : Nat} {r : Bytes} {st st' : St} {id : Int} {tg : Bytes
             · cases h
       · split at h
         · split at h
-          · rcases h with ⟨r', h⟩ | h <;> cases h
-          · split at h
-            · rcases h with ⟨r', h⟩ | h
-              · cases h
-              · injection h with h; subst h; exact Or.inl hm
-            · rcases h with ⟨r', h⟩ | h
-              · injection h with h1 h2; subst h2; exact Or.inl hm
-              · cases h
+          · rcases h with ⟨r', h⟩ | h
+            · cases h
+            · injection h with h; subst h; exact Or.inl hm
+          · rcases h with ⟨r', h⟩ | h
+            · injection h with h1 h2; subst h2; exact Or.inl hm
+            · cases h
         · rcases h with ⟨r', h⟩ | h
           · injection h with h1 h2; subst h2; exact Or.inl hm
           · cases h
-
-/-- the position after a continuing iteration is a suffix of the position before -/
-theorem step_cont_suffix {fsz : Nat} {r r' : Bytes} {st st' : St}
-    (h : step md5 fsz r st = .cont r' st') : ∃ pre, r = pre ++ r' := by
-  unfold step at h
-  cases r with
-  | nil => cases h
-  | cons b r1 =>
-    simp only at h
-    split at h
-    · split at h
-      · cases h
-      · cases h
-      · rename_i r'' hb
-        split at h
-        · cases h
-        · injection h with h1 h2; subst h1
-          unfold readTGData at hb
-          split at hb; · cases hb
-          simp only at hb
-          split at hb
-          · injection hb with hb; subst hb
-            exact ⟨b :: r1.take tgLenBytes, by simp⟩
-          split at hb; · cases hb
-          split at hb; · cases hb
-          split at hb; · cases hb
-          split at hb; · cases hb
-          split at hb
-          · cases hb
-          · injection hb with hb; subst hb
-            exact ⟨b :: (r1.take tgLenBytes ++ ((r1.drop tgLenBytes).take (leDecodeInt (r1.take tgLenBytes)).toNat ++
-              ((r1.drop tgLenBytes).drop (leDecodeInt (r1.take tgLenBytes)).toNat).take checkSumBytes)), by
-              simp only [List.cons_append, List.append_assoc, List.take_append_drop]⟩
-      · rename_i id' tg' r3 hok
-        split at h
-        · cases h
-        · injection h with h1 h2; subst h1
-          obtain ⟨lenb, ck, hr, _⟩ := readTGData_ok md5 hok
-          exact ⟨b :: (lenb ++ (tg' ++ ck)), by rw [hr]; simp⟩
-    · split at h
-      · split at h
-        · cases h
-        · try simp only at h
-          split at h <;> (injection h with h1 h2; subst h1; exact ⟨b :: r1.take txnInfoBytes, by simp⟩)
-      · split at h
-        · split at h
-          · cases h
-          · split at h
-            · cases h
-            · injection h with h1 h2; subst h1; exact ⟨b :: r1.take walStatusLenBytes, by simp⟩
-        · injection h with h1 h2; subst h1; exact ⟨[b], by simp⟩
 
 /-- invariant of the scan loop ⇒ safety of its result -/
 theorem scanLoop_safe (f : Bytes) (fsz : Nat) : ∀ (n : Nat) (r : Bytes) (st st' : St),
@@ -285,14 +228,12 @@ theorem scanLoop_safe (f : Bytes) (fsz : Nat) : ∀ (n : Nat) (r : Bytes) (st st
         exact ⟨pre, lenb, r3, by rw [hf, hr], hl, hd⟩
     · rename_i r1 st1 hs
       obtain ⟨pre, hf⟩ := hpre
-      obtain ⟨p2, hr⟩ := step_cont_suffix md5 hs
+      obtain ⟨p2, hr, _⟩ := step_cont_suffix md5 hs
       refine ih r1 st1 st' ⟨pre ++ p2, by rw [hf, hr, List.append_assoc]⟩ ?_ h id tg hm
       intro id2 tg2 hm2
       rcases step_tgData md5 (Or.inl ⟨r1, hs⟩) hm2 with h1 | ⟨lenb, r3, hr', hl, hd⟩
       · exact hinv id2 tg2 h1
       · exact ⟨pre, lenb, r3, by rw [hf, hr'], hl, hd⟩
-    · cases h
-    · cases h
     · cases h
 
 /-! ### second pass -/
@@ -386,83 +327,6 @@ theorem secondPass_writes (ex : Bytes → Bool) (root : Bytes) :
         · exact Or.inl h1
         · exact Or.inr ⟨(aid, tg), by simp, id, sets, hp, h1⟩
 
-/-! ### where panics come from -/
-
-/-- the first pass panics in `readTGData` only, and only for a length field that is negative
-(`makeslice`) or 0…6 with that many bytes present (`tgSerialized[:7]`) -/
-theorem step_panic {fsz : Nat} {r : Bytes} {st : St} {p : Panic} (h : step md5 fsz r st = .panic p) :
-    ∃ r1, r = midTGDATA :: r1 ∧ 8 ≤ r1.length ∧ leDecodeInt (r1.take 8) < safetyFactor * fsz ∧
-      ((leDecodeInt (r1.take 8) < 0 ∧ p = .makeslice) ∨
-       (0 ≤ leDecodeInt (r1.take 8) ∧ leDecodeInt (r1.take 8) < 7 ∧
-        leDecodeInt (r1.take 8) ≤ (r1.length : Int) - 8 ∧ p = .slice)) := by
-  unfold step at h
-  cases r with
-  | nil => cases h
-  | cons b r1 =>
-    simp only at h
-    split at h
-    · rename_i hb0
-      split at h
-      · rename_i p' hrd
-        injection h with h; subst h
-        refine ⟨r1, by rw [hb0], ?_⟩
-        unfold readTGData at hrd
-        split at hrd; · cases hrd
-        simp only at hrd
-        split at hrd; · cases hrd
-        split at hrd
-        · injection hrd with hrd; subst hrd
-          rename_i h1 h2 h3
-          simp only [tgLenBytes] at h1 h2 h3 ⊢
-          exact ⟨by omega, by omega, Or.inl ⟨h3, trivial⟩⟩
-        split at hrd; · cases hrd
-        split at hrd
-        · injection hrd with hrd; subst hrd
-          rename_i h1 h2 h3 h4 h5
-          simp only [tgLenBytes, tgIDBytes, List.length_drop] at h1 h2 h3 h4 h5 ⊢
-          exact ⟨by omega, by omega, Or.inr ⟨by omega, by omega, by omega, trivial⟩⟩
-        split at hrd; · cases hrd
-        split at hrd <;> cases hrd
-      · cases h
-      · split at h <;> cases h
-      · split at h <;> cases h
-    · split at h
-      · split at h
-        · cases h
-        · try simp only at h
-          split at h <;> cases h
-      · split at h
-        · split at h
-          · cases h
-          · split at h <;> cases h
-        · cases h
-
-/-- … and in `wal.ReadStatus` only for a STATUS id that is the last byte of the file -/
-theorem step_statusEof {fsz : Nat} {r : Bytes} {st : St} (h : step md5 fsz r st = .statusEof) :
-    r = [midSTATUS] := by
-  unfold step at h
-  cases r with
-  | nil => cases h
-  | cons b r1 =>
-    simp only at h
-    split at h
-    · split at h
-      · cases h
-      · cases h
-      · split at h <;> cases h
-      · split at h <;> cases h
-    · split at h
-      · split at h
-        · cases h
-        · try simp only at h
-          split at h <;> cases h
-      · split at h
-        · rename_i hb
-          split at h
-          · rename_i hr; subst hr; rw [hb]
-          · split at h <;> cases h
-        · cases h
-
 theorem applySets_no_panic (ex : Bytes → Bool) (root : Bytes) : ∀ (sets : List WTSet) (acc : List Write),
     (∀ s ∈ sets, 8 ≤ s.buffer.length) → ∀ p, (applySets ex root sets acc).1.1 ≠ .panic p := by
   intro sets
@@ -504,51 +368,31 @@ theorem secondPass_no_panic (ex : Bytes → Bool) (root : Bytes) :
       rw [heq] at this
       exact this
 
-/-! ### truncation of a well-formed WAL -/
+/-! ### damaged and truncated logs: messages the scanner reads over -/
 
 /-- a complete TGDATA record with a correct checksum -/
 def encTG (body : Bytes) : Bytes :=
   midTGDATA :: (leInt 8 body.length ++ (body ++ md5 (leInt 8 body.length ++ body)))
 
-theorem readTGData_enc (fsz : Nat) (body rest : Bytes) (h8 : 8 ≤ body.length)
-    (hs : (body.length : Int) < safetyFactor * fsz) (h63 : (body.length : Int) < 2 ^ 63)
-    (hck : (md5 (leInt 8 body.length ++ body)).length = 16) :
-    readTGData md5 fsz (leInt 8 body.length ++ (body ++ (md5 (leInt 8 body.length ++ body) ++ rest))) =
-      .ok (leDecodeInt (body.take 8)) body rest := by
-  have hL : leDecodeInt (leInt 8 (body.length : Int)) = body.length :=
-    leDecodeInt_leInt _ _ (by simp; omega) (by simp; omega)
-  have ht : (leInt 8 (body.length : Int) ++ (body ++ (md5 (leInt 8 body.length ++ body) ++ rest))).take tgLenBytes
-      = leInt 8 body.length := List.take_left' (leInt_length 8 _)
-  have hd : (leInt 8 (body.length : Int) ++ (body ++ (md5 (leInt 8 body.length ++ body) ++ rest))).drop tgLenBytes
-      = body ++ (md5 (leInt 8 body.length ++ body) ++ rest) := List.drop_left' (leInt_length 8 _)
-  unfold readTGData
-  simp only [ht, hd, hL]
-  have c1 : ¬ (leInt 8 (body.length : Int) ++ (body ++ (md5 (leInt 8 body.length ++ body) ++ rest))).length < tgLenBytes := by
-    simp [leInt_length, tgLenBytes]
-  simp only [c1, if_false, Int.toNat_natCast]
-  have c2 : ¬ ¬ (body.length : Int) < safetyFactor * fsz := by omega
-  have c3 : ¬ (body.length : Int) < 0 := by omega
-  have c4 : ¬ (body ++ (md5 (leInt 8 body.length ++ body) ++ rest)).length < body.length := by simp
-  have c5 : ¬ body.length < tgIDBytes - 1 := by simp [tgIDBytes]; omega
-  have c6 : ¬ body.length = 7 := by omega
-  simp only [c2, c3, c4, c5, c6, if_false, List.take_left, List.drop_left, List.append_nil]
-  have c7 : ¬ (md5 (leInt 8 body.length ++ body) ++ rest).length < checkSumBytes := by
-    simp [checkSumBytes, hck]
-  have t1 : (md5 (leInt 8 body.length ++ body) ++ rest).take checkSumBytes = md5 (leInt 8 body.length ++ body) :=
-    List.take_left' hck
-  have t2 : (md5 (leInt 8 body.length ++ body) ++ rest).drop checkSumBytes = rest := List.drop_left' hck
-  simp only [c7, if_false, t1, t2, if_true]
-
-/-- messages of a well-formed WAL body: a complete checksummed group, or an 11-byte TXNINFO record -/
+/-- what the scanner can meet in a log and reads over: a complete checksummed group, an 11-byte
+TXNINFO record, an unreadable group record (complete, checksum wrong), a group header whose length
+fails the sanity check, a byte that is no message id -/
 inductive Msg where
   | tg (body : Bytes)
   | info (buf : Bytes)
+  | bad (body ck : Bytes)
+  | insane (lenb : Bytes)
+  | unknown (b : UInt8)
 
 def Msg.enc : Msg → Bytes
   | .tg body => encTG md5 body
   | .info buf => midTXNINFO :: buf
+  | .bad body ck => midTGDATA :: (leInt 8 body.length ++ (body ++ ck))
+  | .insane lenb => midTGDATA :: lenb
+  | .unknown b => [b]
 
-/-- what the first pass does with a complete message -/
+/-- what the first pass does with a complete message: only intact groups and TXNINFO records
+change the state -/
 def upd (st : St) : Msg → St
   | .tg body => { st with tgData := st.tgData.put (leDecodeInt (body.take 8)) (some body),
                           seen := leDecodeInt (body.take 8) :: st.seen }
@@ -558,12 +402,45 @@ def upd (st : St) : Msg → St
                 ckptDropped := st.ckptDropped ||
                   st.tgData.any (fun e => decide (e.1 ≤ leDecodeInt (buf.take 8)) && e.2.isSome) }
     else st
+  | .bad _ _ => st
+  | .insane _ => st
+  | .unknown _ => st
 
 /-- well-formedness of a message given the file size and the ids seen so far -/
 def Msg.ok (fsz : Nat) (st : St) : Msg → Prop
   | .tg body => 8 ≤ body.length ∧ (body.length : Int) < safetyFactor * fsz ∧ (body.length : Int) < 2 ^ 63 ∧
       (md5 (leInt 8 body.length ++ body)).length = 16 ∧ st.seen.contains (leDecodeInt (body.take 8)) = false
   | .info buf => buf.length = 10
+  | .bad body ck => 8 ≤ body.length ∧ (body.length : Int) < safetyFactor * fsz ∧ (body.length : Int) < 2 ^ 63 ∧
+      ck.length = 16 ∧ md5 (leInt 8 body.length ++ body) ≠ ck
+  | .insane lenb => lenb.length = 8 ∧ 8 ≤ leDecodeInt lenb ∧ ¬ leDecodeInt lenb < safetyFactor * fsz
+  | .unknown b => b ≠ midTGDATA ∧ b ≠ midTXNINFO ∧ b ≠ midSTATUS
+
+/-- `readTGData` on a complete record with sane length: `.ok` iff the stored checksum matches -/
+theorem readTGData_record (fsz : Nat) (body ck rest : Bytes) (h8 : 8 ≤ body.length)
+    (hs : (body.length : Int) < safetyFactor * fsz) (h63 : (body.length : Int) < 2 ^ 63)
+    (hck : ck.length = 16) :
+    readTGData md5 fsz (leInt 8 body.length ++ (body ++ (ck ++ rest))) =
+      if md5 (leInt 8 body.length ++ body) = ck then .ok (leDecodeInt (body.take 8)) body rest else .bad rest := by
+  have hL : leDecodeInt (leInt 8 (body.length : Int)) = body.length :=
+    leDecodeInt_leInt _ _ (by simp; omega) (by simp; omega)
+  have ht : (leInt 8 (body.length : Int) ++ (body ++ (ck ++ rest))).take tgLenBytes
+      = leInt 8 body.length := List.take_left' (leInt_length 8 _)
+  have hd : (leInt 8 (body.length : Int) ++ (body ++ (ck ++ rest))).drop tgLenBytes
+      = body ++ (ck ++ rest) := List.drop_left' (leInt_length 8 _)
+  unfold readTGData
+  simp only [ht, hd, hL]
+  have c1 : ¬ (leInt 8 (body.length : Int) ++ (body ++ (ck ++ rest))).length < tgLenBytes := by
+    simp [leInt_length, tgLenBytes]
+  simp only [c1, if_false, Int.toNat_natCast]
+  have c0 : ¬ (body.length : Int) < (tgIDBytes : Int) := by simp only [tgIDBytes]; omega
+  have c2 : ¬ ¬ (body.length : Int) < safetyFactor * fsz := by omega
+  have c4 : ¬ (body ++ (ck ++ rest)).length < body.length := by simp
+  simp only [c0, c2, c4, if_false, List.take_left, List.drop_left]
+  have c7 : ¬ (ck ++ rest).length < checkSumBytes := by simp [checkSumBytes, hck]
+  have t1 : (ck ++ rest).take checkSumBytes = ck := List.take_left' hck
+  have t2 : (ck ++ rest).drop checkSumBytes = rest := List.drop_left' hck
+  simp only [c7, if_false, t1, t2]
 
 theorem step_msg (fsz : Nat) (m : Msg) (rest : Bytes) (st : St) (h : m.ok md5 fsz st) :
     step md5 fsz (m.enc md5 ++ rest) st = .cont rest (upd st m) := by
@@ -571,8 +448,8 @@ theorem step_msg (fsz : Nat) (m : Msg) (rest : Bytes) (st : St) (h : m.ok md5 fs
   | tg body =>
     obtain ⟨h8, hs, h63, hck, hseen⟩ := h
     simp only [Msg.enc, encTG, List.cons_append, List.append_assoc, step, if_true]
-    rw [readTGData_enc md5 fsz body rest h8 hs h63 hck]
-    simp only [hseen, Bool.false_eq_true, if_false, upd]
+    rw [readTGData_record md5 fsz body _ rest h8 hs h63 hck]
+    simp only [if_true, hseen, Bool.false_eq_true, if_false, upd]
   | info buf =>
     have hl : buf.length = 10 := h
     have hne : midTXNINFO ≠ midTGDATA := by decide
@@ -582,24 +459,43 @@ theorem step_msg (fsz : Nat) (m : Msg) (rest : Bytes) (st : St) (h : m.ok md5 fs
     have t2 : (buf ++ rest).drop txnInfoBytes = rest := List.drop_left' hl
     simp only [c1, if_false, t1, t2, upd]
     split <;> rfl
+  | bad body ck =>
+    obtain ⟨h8, hs, h63, hck, hne⟩ := h
+    simp only [Msg.enc, List.cons_append, List.append_assoc, step, if_true]
+    rw [readTGData_record md5 fsz body ck rest h8 hs h63 hck]
+    simp only [hne, if_false, upd]
+  | insane lenb =>
+    obtain ⟨hl, h8, hins⟩ := h
+    simp only [Msg.enc, List.cons_append, step, if_true]
+    have hrd : readTGData md5 fsz (lenb ++ rest) = .bad rest := by
+      unfold readTGData
+      have c1 : ¬ (lenb ++ rest).length < tgLenBytes := by simp [tgLenBytes, hl]
+      have t1 : (lenb ++ rest).take tgLenBytes = lenb := List.take_left' hl
+      have t2 : (lenb ++ rest).drop tgLenBytes = rest := List.drop_left' hl
+      have c0 : ¬ leDecodeInt lenb < (tgIDBytes : Int) := by simp only [tgIDBytes]; omega
+      simp only [c1, if_false, t1, t2, c0, hins, not_false_eq_true, if_true]
+    rw [hrd]
+    simp only [upd]
+  | unknown b =>
+    obtain ⟨h0, h1, h2⟩ := h
+    simp only [Msg.enc, List.cons_append, List.nil_append, step, h0, h1, h2, if_false, upd]
 
-/-- a file that ends inside a message: the scan stops there; a cut group leaves `tgData[0] = nil` -/
+/-- a file that ends inside a message: the scan stops there and the state is untouched -/
 theorem step_cut (fsz : Nat) (m : Msg) (k : Nat) (st : St) (h : m.ok md5 fsz st)
     (hk : k < (m.enc md5).length) :
-    step md5 fsz ((m.enc md5).take k) st = .stop st ∨
-    step md5 fsz ((m.enc md5).take k) st = .stop st.failedRead := by
+    step md5 fsz ((m.enc md5).take k) st = .stop st := by
   cases k with
-  | zero => left; simp [step]
+  | zero => simp [step]
   | succ k =>
-    cases m with
-    | tg body =>
-      obtain ⟨h8, hs, h63, hck, hseen⟩ := h
-      right
-      simp only [Msg.enc, encTG, List.take_succ_cons, step, if_true]
-      simp only [Msg.enc, encTG, List.length_cons, List.length_append, leInt_length, hck] at hk
+    -- a cut TGDATA record (complete or not, any checksum) is a short read
+    have tgcut : ∀ (body ck : Bytes), 8 ≤ body.length → (body.length : Int) < safetyFactor * fsz →
+        (body.length : Int) < 2 ^ 63 → ck.length = 16 → k + 1 < 1 + (8 + (body.length + 16)) →
+        step md5 fsz ((midTGDATA :: (leInt 8 body.length ++ (body ++ ck))).take (k + 1)) st = .stop st := by
+      intro body ck h8 hs h63 hck hk
+      simp only [List.take_succ_cons, step, if_true]
       have hL : leDecodeInt (leInt 8 (body.length : Int)) = body.length :=
         leDecodeInt_leInt _ _ (by simp; omega) (by simp; omega)
-      generalize hq : (leInt 8 (body.length : Int) ++ (body ++ md5 (leInt 8 body.length ++ body))).take k = q
+      generalize hq : (leInt 8 (body.length : Int) ++ (body ++ ck)).take k = q
       have hql : q.length = k := by
         rw [← hq, List.length_take]; simp [leInt_length, hck]; omega
       have hshort : readTGData md5 fsz q = .short := by
@@ -611,28 +507,47 @@ theorem step_cut (fsz : Nat) (m : Msg) (k : Nat) (st : St) (h : m.ok md5 fsz st)
           have ht : q.take tgLenBytes = leInt 8 (body.length : Int) := by
             rw [← hq, List.take_take, Nat.min_eq_left (by simp only [tgLenBytes]; omega)]
             exact List.take_left' (leInt_length 8 _)
-          have hdl : (q.drop tgLenBytes).length = k - 8 := by simp [tgLenBytes, hql]
           simp only [ht, hL, Int.toNat_natCast]
+          have c0 : ¬ (body.length : Int) < (tgIDBytes : Int) := by simp only [tgIDBytes]; omega
           have c2 : ¬ ¬ (body.length : Int) < safetyFactor * fsz := by omega
-          have c3 : ¬ (body.length : Int) < 0 := by omega
-          simp only [c2, c3, if_false]
+          simp only [c0, c2, if_false]
           by_cases c4 : (q.drop tgLenBytes).length < body.length
           · simp only [c4, if_true]
           · simp only [c4, if_false]
-            have c5 : ¬ body.length < tgIDBytes - 1 := by simp [tgIDBytes]; omega
-            simp only [c5, if_false]
             have c6 : ((q.drop tgLenBytes).drop body.length).length < checkSumBytes := by
-              simp only [List.length_drop, checkSumBytes, tgLenBytes, hql]; omega
+              simp only [List.length_drop, checkSumBytes, tgLenBytes, hql] at c4 ⊢; omega
             simp only [c6, if_true]
       rw [hshort]
+    cases m with
+    | tg body =>
+      obtain ⟨h8, hs, h63, hck, _⟩ := h
+      simp only [Msg.enc, encTG, List.length_cons, List.length_append, leInt_length, hck] at hk
+      simp only [Msg.enc, encTG]
+      exact tgcut body _ h8 hs h63 hck (by omega)
+    | bad body ck =>
+      obtain ⟨h8, hs, h63, hck, _⟩ := h
+      simp only [Msg.enc, List.length_cons, List.length_append, leInt_length, hck] at hk
+      simp only [Msg.enc]
+      exact tgcut body ck h8 hs h63 hck (by omega)
     | info buf =>
-      left
       have hl : buf.length = 10 := h
       have hne : midTXNINFO ≠ midTGDATA := by decide
       simp only [Msg.enc, List.take_succ_cons, step, hne, if_false, if_true]
       simp only [Msg.enc, List.length_cons, hl] at hk
       have c1 : (buf.take k).length < txnInfoBytes := by simp [txnInfoBytes, hl]; omega
       simp only [c1, if_true]
+    | insane lenb =>
+      obtain ⟨hl, _, _⟩ := h
+      simp only [Msg.enc, List.length_cons, hl] at hk
+      simp only [Msg.enc, List.take_succ_cons, step, if_true]
+      have : readTGData md5 fsz (lenb.take k) = .short := by
+        unfold readTGData
+        have c1 : (lenb.take k).length < tgLenBytes := by simp [tgLenBytes, hl]; omega
+        simp only [c1, if_true]
+      rw [this]
+    | unknown b =>
+      simp only [Msg.enc, List.length_cons, List.length_nil] at hk
+      omega
 
 def encAll (ms : List Msg) : Bytes := (ms.map (Msg.enc md5)).flatten
 
@@ -649,18 +564,15 @@ def complete : List Msg → Nat → List Msg
 theorem enc_pos (m : Msg) : 1 ≤ (m.enc md5).length := by
   cases m <;> simp [Msg.enc, encTG]
 
-/-- **truncation**: scanning the first `k` bytes of a well-formed message sequence ends normally in
-exactly the state produced by the messages that are complete within those `k` bytes (plus the
-`tgData[0] = nil` artefact when the cut falls inside a group record) -/
+/-- **truncation**: scanning the first `k` bytes of a message sequence ends normally in exactly the
+state produced by the messages that are complete within those `k` bytes -/
 theorem scan_truncated (fsz : Nat) : ∀ (ms : List Msg) (k : Nat) (st : St) (fuel : Nat),
     AllOk md5 fsz st ms → k < fuel →
-    scanLoop md5 fsz fuel ((encAll md5 ms).take k) st = .done ((complete md5 ms k).foldl upd st) ∨
-    scanLoop md5 fsz fuel ((encAll md5 ms).take k) st = .done ((complete md5 ms k).foldl upd st).failedRead := by
+    scanLoop md5 fsz fuel ((encAll md5 ms).take k) st = .done ((complete md5 ms k).foldl upd st) := by
   intro ms
   induction ms with
   | nil =>
     intro k st fuel _ hf
-    left
     cases fuel with
     | zero => omega
     | succ n => simp [encAll, complete, scanLoop, step]
@@ -686,8 +598,64 @@ theorem scan_truncated (fsz : Nat) : ∀ (ms : List Msg) (k : Nat) (st : St) (fu
         rw [e]
         unfold scanLoop
         simp only [complete, hle, if_false, List.foldl_nil]
-        rcases step_cut md5 fsz m k st hm (by omega) with h | h
-        · left; rw [h]
-        · right; rw [h]
+        rw [step_cut md5 fsz m k st hm (by omega)]
+
+theorem length_le_encAll (ms : List Msg) : ms.length ≤ (encAll md5 ms).length := by
+  induction ms with
+  | nil => simp [encAll]
+  | cons m ms ih =>
+    have := enc_pos md5 m
+    simp only [encAll, List.map_cons, List.flatten_cons, List.length_append, List.length_cons] at ih ⊢
+    omega
+
+/-- a tail at which the scanner stops whatever its state -/
+def Stops (fsz : Nat) (t : Bytes) : Prop := ∀ st, step md5 fsz t st = .stop st
+
+/-- messages followed by a stopping tail: the state of the messages, nothing else -/
+theorem scan_then_stop (fsz : Nat) (t : Bytes) (ht : Stops md5 fsz t) : ∀ (ms : List Msg) (st : St) (fuel : Nat),
+    AllOk md5 fsz st ms → ms.length < fuel →
+    scanLoop md5 fsz fuel (encAll md5 ms ++ t) st = .done (ms.foldl upd st) := by
+  intro ms
+  induction ms with
+  | nil =>
+    intro st fuel _ hf
+    cases fuel with
+    | zero => omega
+    | succ n => simp [encAll, scanLoop, ht st]
+  | cons m ms ih =>
+    intro st fuel hok hf
+    obtain ⟨hm, hrest⟩ := hok
+    cases fuel with
+    | zero => omega
+    | succ n =>
+      have e : encAll md5 (m :: ms) ++ t = m.enc md5 ++ (encAll md5 ms ++ t) := by
+        simp only [encAll, List.map_cons, List.flatten_cons, List.append_assoc]
+      rw [e]
+      unfold scanLoop
+      rw [step_msg md5 fsz m _ st hm]
+      simp only [List.foldl_cons]
+      exact ih _ n hrest (by simp only [List.length_cons] at hf; omega)
+
+/-- a TGDATA id followed by a length field below `tgIDBytes` (zero, small, negative) stops the scan,
+whatever follows -/
+theorem stops_small_length (fsz : Nat) (lenb rest : Bytes) (hl : lenb.length = 8) (h : leDecodeInt lenb < 8) :
+    Stops md5 fsz (midTGDATA :: (lenb ++ rest)) := by
+  intro st
+  simp only [step, if_true]
+  have : readTGData md5 fsz (lenb ++ rest) = .short := by
+    unfold readTGData
+    have c1 : ¬ (lenb ++ rest).length < tgLenBytes := by simp [tgLenBytes, hl]
+    have t1 : (lenb ++ rest).take tgLenBytes = lenb := List.take_left' hl
+    have c0 : leDecodeInt lenb < (tgIDBytes : Int) := by simp only [tgIDBytes]; omega
+    simp only [c1, if_false, t1, c0, if_true]
+  rw [this]
+
+/-- a STATUS id with fewer than 10 bytes behind it (in particular as the last byte) stops the scan -/
+theorem stops_status_tail (fsz : Nat) (t : Bytes) (h : t.length < 10) : Stops md5 fsz (midSTATUS :: t) := by
+  intro st
+  have c0 : midSTATUS ≠ midTGDATA := by decide
+  have c1 : midSTATUS ≠ midTXNINFO := by decide
+  have c2 : t.length < walStatusLenBytes := by simp only [walStatusLenBytes]; omega
+  simp only [step, c0, c1, c2, if_false, if_true]
 
 end Mkts.WalReplay
